@@ -142,6 +142,19 @@ impl Observer for IdModel {
                         }
                     }
                 }
+                // a send that was not carried out at all - no error, nothing handed to the transport, nothing kept in the store -
+                // is a refusal in everything but name: no exchange owns the identifier afterwards, so it must not stay in use
+                if !st.has_error() && !sent && st.panic.is_none() && u_before.contains(&id) && !pre_app.all_out().contains(&id) {
+                    let kept = w.c.stored().iter().any(|s| s.packet_id() == Some(id));
+                    let in_use_after = w.c.free_ids().iter().all(|(lo, hi)| !((*lo..=*hi).contains(&(id as u64))));
+                    if !kept && in_use_after && !released.contains(&id) {
+                        return Err(fail(
+                            "C08.leak_on_refusal",
+                            format!("{}/silently_dropped/{v}", ap.kind_name()),
+                            format!("send of {} returned no error, requested no transmission and stored nothing, yet identifier {id} stays in use: no exchange exists that could ever release it", ap.brief()),
+                        ));
+                    }
+                }
             }
         }
         // close
